@@ -150,6 +150,8 @@ package server
 //
 // ghost.sealed: byte slices returned by a successful Seal of the partition's encryption handler.
 //@ ghost var sealed set[[]byte]
+// ghost.src[m]: the NATS message from which the log message m was built
+//@ ghost var src ghostmap[*commitlog.Message]*nats.Msg
 
 //@ func natsToProtoMessage serves C04, C17, C14
 //@   ensures result != nil && fresh(result)
@@ -160,7 +162,8 @@ package server
 //@   requires p != nil && p.srv != nil && p.srv.config != nil
 //@   ghost after call Seal: ghost.sealed[ret0] := ghost.sealed[ret0] || ret1 == nil
 //@   call builtin.append requires [sealed-before-batched] p.encryptionHandler == nil || ghost.sealed[arg1[0].Value]
-//@   call builtin.append requires [size-checked] int64(len(msg.Data)) <= p.srv.config.Clustering.ReplicationMaxBytes
+//@   ghost after call natsToProtoMessage: ghost.src[ret0] := arg0
+//@   call builtin.append requires [size-checked] int64(len(ghost.src[arg1[0]].Data)) <= p.srv.config.Clustering.ReplicationMaxBytes
 //@   call Append requires [only-gated] forall j int :: 0 <= j && j < len(arg1) ==> arg1[j] != nil && (p.encryptionHandler == nil || ghost.sealed[arg1[j].Value])
 //@   call Append requires [cc-single] len(arg1) >= 1 && (ghost.cc ==> len(arg1) == 1)
 //@   call sendAck requires [negative] arg1.AckError != 0
